@@ -84,7 +84,7 @@ impl Hsla {
 fn deg_mod(value: f64) -> f64 {
     let turn = 360.;
     let value = value % turn;
-    if value.is_sign_negative() {
+    if value < 0. {
         value + turn
     } else {
         value
